@@ -7,7 +7,7 @@ CONSTANTS
   CCs = {"", "US"}
   Variant = "as_found"
   Broken = "none"
-  MaxLoops = 1
+  MaxLoops = 0
   MaxPrints = 2
   MaxAuth = 0
 VIEW view
